@@ -471,7 +471,7 @@ func (vc *VC) execInstr(fr *frame, n *Node, in ssa.Instruction) bool {
 		switch x.Op {
 		case token.MUL: // load
 			vc.nilCheck(fr, n, a.T, x.Pos())
-			t := vc.load(st, a.T, x.Type())
+			t := vc.loadM(st, a.Mem, a.T, x.Type())
 			v := vc.defVal(n, x, t)
 			vc.assume(implies(n.reach, e.wellFormed(v.T, x.Type(), st.wm)))
 		case token.ARROW:
@@ -490,11 +490,18 @@ func (vc *VC) execInstr(fr *frame, n *Node, in ssa.Instruction) bool {
 		a, v := val(x.Addr), val(x.Val)
 		vc.nilCheck(fr, n, a.T, x.Pos())
 		elem := x.Addr.Type().Underlying().(*types.Pointer).Elem()
-		vc.store(st, a.T, elem, v.T)
+		vc.storeM(st, a.Mem, a.T, elem, v.T)
 	case *ssa.FieldAddr:
 		a := val(x.X)
 		vc.nilCheck(fr, n, a.T, x.Pos())
-		vc.bind(n, x, e.fieldPtr(a.T, x.Field))
+		fv := vc.bind(n, x, e.fieldPtr(a.T, x.Field))
+		stT := x.X.Type().Underlying().(*types.Pointer).Elem()
+		if isCellType(stT.Underlying().(*types.Struct).Field(x.Field).Type()) {
+			if fm := vc.prog.fieldMem(stT, x.Field); fm != "" {
+				fv.Mem = e.memForField(stT, x.Field)
+				n.env[x] = fv
+			}
+		}
 	case *ssa.Field:
 		a := val(x.X)
 		s := e.structSort(x.X.Type())
